@@ -159,9 +159,11 @@ def y_scripts(seed, count, reentrant):
                     # still pending) and itself; a third of the scripts are removal-heavy (several observers leave in ONE callback)
                     heavy = rnd.random() < 0.33
                     for _ in range(rnd.randrange(2, 4) if heavy else rnd.randrange(1, 3)):
-                        k = rnd.choice(["unsub", "unsub", "inval"] if heavy else ["unsub", "mute", "unmute", "inval", "sub", "notify"])
+                        k = rnd.choice(["unsub", "unsub", "inval"] if heavy else ["unsub", "mute", "unmute", "inval", "sub", "notify", "throw"])
                         near = rnd.choice([0] + list(range(max(1, nsub - 3), nsub + 3)))
-                        sc.append({"k": k, "t": 0 if k in ("sub", "notify") else (near if rnd.random() < 0.7 else rnd.randrange(0, 12))})
+                        sc.append({"k": k, "t": 0 if k in ("sub", "notify", "throw") else (near if rnd.random() < 0.7 else rnd.randrange(0, 12))})
+                elif not reentrant and rnd.random() < 0.08:
+                    sc.append({"k": "throw", "t": 0})     # an ordinary callback that fails: the round ends there, the next round is a normal one
                 nsub += 1
                 steps.append(("Subscribe" if reentrant or rnd.random() < 0.8 else "SubscribeMuted", h, "", 0, sc))
             elif r < 0.31 and not reentrant:
